@@ -467,13 +467,19 @@ func ruleSPool(w *World, r *Report) {
 			if _, isImpl := w.implNames()[rootFn(fn)]; !isImpl {
 				continue
 			}
-			eachInstr(fn, false, func(_ *ssa.Function, in ssa.Instruction) {
-				if ci, ok := in.(ssa.CallInstruction); ok {
-					if g := ci.Common().StaticCallee(); g != nil && g.Name() == "Get" && g.Pkg != nil && g.Pkg.Pkg.Path() == "sync" && len(ci.Common().Args) > 0 {
-						relevantPools[ci.Common().Args[0]] = true
-					}
+			// in the implementation itself or in a helper it calls
+			for f2 := range w.pkgReach([]*ssa.Function{fn}, nil) {
+				if _, isImpl := w.implNames()[rootFn(f2)]; isImpl && rootFn(f2) != rootFn(fn) {
+					continue
 				}
-			})
+				eachInstr(f2, false, func(_ *ssa.Function, in ssa.Instruction) {
+					if ci, ok := in.(ssa.CallInstruction); ok {
+						if g := ci.Common().StaticCallee(); g != nil && g.Name() == "Get" && g.Pkg != nil && g.Pkg.Pkg.Path() == "sync" && len(ci.Common().Args) > 0 {
+							relevantPools[ci.Common().Args[0]] = true
+						}
+					}
+				})
+			}
 		}
 	}
 	for _, fn := range w.AllFuncs {
@@ -505,14 +511,38 @@ func ruleSPool(w *World, r *Report) {
 				if mi, ok := arg.(*ssa.MakeInterface); ok {
 					base = strip(mi.X)
 				}
+				if ci2, ok := base.(*ssa.ChangeInterface); ok {
+					base = strip(ci2.X)
+				}
 				base = resolve(base)
-				ta, ok := base.(*ssa.TypeAssert)
-				fromGet := false
-				if ok {
-					if call, ok := ta.X.(*ssa.Call); ok {
-						if g := call.Call.StaticCallee(); g != nil && g.Name() == "Get" && len(call.Call.Args) > 0 && call.Call.Args[0] == pool {
-							fromGet = true
+				isGetOf := func(v ssa.Value) bool {
+					ta, ok := resolve(strip(v)).(*ssa.TypeAssert)
+					if !ok {
+						return false
+					}
+					call, ok := ta.X.(*ssa.Call)
+					if !ok {
+						return false
+					}
+					g := call.Call.StaticCallee()
+					return g != nil && g.Name() == "Get" && len(call.Call.Args) > 0 && call.Call.Args[0] == pool
+				}
+				fromGet := isGetOf(base)
+				// the pooled value carried in a field of a small wrapper struct: every
+				// value ever stored in that field came from Get of this pool
+				var fieldRoot ssa.Value
+				fieldIdx := -1
+				if root, idx, n, ok := structFieldKey(strip(cc.Args[1])); ok && !fromGet && n.Obj().Pkg() == w.Types {
+					vals, zero := w.structFieldOrigins(n, idx)
+					all := len(vals) > 0 && !zero
+					for _, ov := range vals {
+						if !isGetOf(ov) {
+							all = false
 						}
+					}
+					if all {
+						fromGet = true
+						fieldRoot, fieldIdx = root, idx
 					}
 				}
 				if !fromGet {
@@ -527,7 +557,13 @@ func ruleSPool(w *World, r *Report) {
 						continue
 					}
 					cc2 := c2.Common()
-					if cc2.IsInvoke() && resolve(cc2.Value) == base {
+					sameObj := resolve(cc2.Value) == base
+					if fieldRoot != nil {
+						if r2, i2, _, ok := structFieldKey(cc2.Value); ok && r2 == fieldRoot && i2 == fieldIdx {
+							sameObj = true
+						}
+					}
+					if cc2.IsInvoke() && sameObj {
 						m := cc2.Method.Name()
 						if m == "Reset" {
 							resetAt = j
@@ -552,3 +588,39 @@ func ruleSPool(w *World, r *Report) {
 }
 
 var _ = types.Typ
+
+// structFieldKey: v is field idx of a struct variable of a named type, read
+// as `x.f` on a loaded value or through `&x.f`: the variable (its allocation,
+// or the parameter), the field and the type.
+func structFieldKey(v ssa.Value) (root ssa.Value, idx int, T *types.Named, ok bool) {
+	for {
+		switch x := v.(type) {
+		case *ssa.ChangeInterface:
+			v = x.X
+			continue
+		case *ssa.MakeInterface:
+			v = x.X
+			continue
+		}
+		break
+	}
+	rootOf := func(x ssa.Value) ssa.Value {
+		if ld, ok := x.(*ssa.UnOp); ok && ld.Op == token.MUL {
+			return ld.X
+		}
+		return x
+	}
+	switch x := v.(type) {
+	case *ssa.Field:
+		if n, isN := x.X.Type().(*types.Named); isN {
+			return rootOf(x.X), x.Field, n, true
+		}
+	case *ssa.UnOp:
+		if fa, isF := x.X.(*ssa.FieldAddr); isF && x.Op == token.MUL {
+			if n := structOfAddr(fa); n != nil {
+				return fa.X, fa.Field, n, true
+			}
+		}
+	}
+	return nil, 0, nil, false
+}
